@@ -319,6 +319,18 @@ Theorem C05_spec_no_double_clear_on_model : forall c : case,
   nodupb (flat_map handed (filter is_clear (rcalls tr 0 rss))) = true.
 Proof. exact no_double_clear_on_model. Qed.
 
+(* Block::len must be trailing_ones, not count_ones: in a reachable configuration where a snapshot
+   stands at 506 after a passed quiescence test, a popcount length hands out an unwritten slot,
+   the trailing-ones length does not (cf. C05_delivery_reads_written_slots, which covers the window
+   between the quiescence test and the read for every schedule) *)
+Theorem C05_popcount_len_refuted :
+  let cf := fst (exec (step BS true true) site (init_config [[CPush 1%N]; [CPush 2%N]; [CData]]) popcount_sched) in
+  let k := getb (heap (fst cf)) 0 in
+  option_map pcl (nth_error (snd cf) 2) = Some (WD false 0 []) /\
+  count_true (bdone k) = 1 /\ tones (bdone k) = 0 /\
+  data_of k (count_true (bdone k)) = [garbage] /\ data_of k (tones (bdone k)) = [].
+Proof. exact popcount_len_reads_unwritten. Qed.
+
 (* the open finding: inside the class the property fails (witness replayed on the real code:
    corpus/C05/b-late-claim-lost.json) *)
 Theorem C05_late_claim_refutes : exists c, known_class c = Some 1%N /\ spec_ok c (run_case c) = false.
